@@ -30,7 +30,7 @@
    monitors       Trace_*                        all       total monitors over recorded traces of the real code (TraceBase)
 
    Pin* constants (a repaired behaviour switched back on; each has a self-test configuration that MUST produce a counterexample):
-     Walk: PinFirstOrder PinCollapse PinNoProgress PinFirstUnguarded   Ops: PinSecondRead PinErrIndex PinGetNextEnd PinErrBeforeId PinV1ErrBeforeCommunity
+     Walk: PinFirstOrder PinCollapse PinNoProgress PinFirstUnguarded PinPartialFirstLost PinValueOrder   Ops: PinSecondRead PinErrIndex PinGetNextEnd PinErrBeforeId PinV1ErrBeforeCommunity
      UsmDefs: PinAuthFlagTrusted PinConfirmedOnlyGet PinReserialise PinLazyErrorFirst PinStatsInResponse   UsmTime: PinFrozen
      Transport: PinNoFinallyClose   Concurrent: PinSharedRequestId PinSingleSlotMsgId PinSharedSeen   Config: PinIsInstance PinRestoreCfgOnly
      Trap: PinBrokenDecode PinStopOnError   Decoder: PinNoGuard
